@@ -204,10 +204,18 @@ def unit_workdir(base, unit):
 
 def generated_dir_for(unit, repo, work):
     """units that extract build-script output (prost) need an OUT_DIR; build it on a scratch copy"""
-    if not unit.get("needs_generated"):
+    if not unit.get("protos"):
         return None
-    from kani_runner import prost_out_dir
-    return prost_out_dir(repo, work)
+    import protogen
+    d = os.path.join(work, "gen-" + unit["name"])
+    os.makedirs(d, exist_ok=True)
+    for pr in unit["protos"]:
+        src = os.path.join(repo, pr)
+        if not os.path.exists(src):
+            raise Undecided(f"lost anchor: {pr} not found")
+        out = os.path.join(d, os.path.basename(pr).replace(".proto", ".rs"))
+        open(out, "w").write(protogen.gen(open(src).read()))
+    return d
 
 
 def run_verus_unit(unit, repo, work, seed, tier, features=None, tag="", rlimit=30):
